@@ -341,6 +341,40 @@ func init() {
 		win := e.canonWindow(c.Select(arr, p.Terms[0]), p.Terms[1], p.Terms[2])
 		return Val{Typ: rt, Terms: []*smt.Term{c.App("crc32.update", smt.BV(32), args[0].Terms[0], win, p.Terms[2])}}
 	}
+	// net.IP.To4 / To16: deterministic functions of the address bytes
+	ipTo := func(want int64) callModel {
+		return func(e *Engine, f *frame, st *State, args []Val, rt types.Type, pos string) Val {
+			c := e.C
+			ip := args[0]
+			arr := e.heapArr(st, elemName(types.Typ[types.Uint8], 0), smt.Array(smt.Int, bytesInner))
+			inner := c.Select(arr, ip.Terms[0])
+			l4 := c.Eq(ip.Terms[2], c.BVLit64(4, 64))
+			l16 := c.Eq(ip.Terms[2], c.BVLit64(16, 64))
+			mapped := c.App("net.isV4Mapped", smt.Bool, inner, ip.Terms[1])
+			fresh := e.newRef(st)
+			z := c.BVLit64(0, 64)
+			w := c.BVLit64(want, 64)
+			var ok *smt.Term
+			if want == 4 {
+				ok = c.Or(l4, c.And(l16, mapped))
+			} else {
+				ok = c.Or(l4, l16)
+			}
+			same := l16
+			if want == 4 {
+				same = l4
+			}
+			// same length: the receiver itself; otherwise a fresh slice whose contents are a function of the address
+			name := elemName(types.Typ[types.Uint8], 0)
+			st.Heap[name] = c.Store(arr, fresh, c.App(fmt.Sprintf("net.to%d", want), bytesInner, inner, ip.Terms[1], ip.Terms[2]))
+			ref := c.Ite(ok, c.Ite(same, ip.Terms[0], fresh), c.IntLit(0))
+			off := c.Ite(c.And(ok, same), ip.Terms[1], z)
+			ln := c.Ite(ok, w, z)
+			return Val{Typ: rt, Terms: []*smt.Term{ref, off, ln, ln}}
+		}
+	}
+	callModels["(net.IP).To4"] = ipTo(4)
+	callModels["(net.IP).To16"] = ipTo(16)
 	callModels["reflect.MakeSlice"] = func(e *Engine, f *frame, st *State, args []Val, rt types.Type, pos string) Val {
 		c := e.C
 		ln, cp := args[1].Terms[0], args[2].Terms[0]
